@@ -368,9 +368,59 @@ class CatCallCase(Case):
     return (layer, x), {}
 
 
+_LEARNED_CALL_SCRIPT = """
+import numpy as np
+spec = args[0]
+ly = mod('pwl_calibration_layer')
+U, kps = spec['units'], spec['kps']
+layer = ly.PWLCalibration(input_keypoints=kps, units=U, input_keypoints_type='learned_interior')
+layer.build([None, spec['in_cols']])
+rng = np.random.RandomState(5)
+worst = None
+for spread in (0.0, 1.0, 5.0, 12.0, 25.0):
+  for trial in range(4):
+    logits = rng.uniform(-spread, spread, size=(U, len(kps) - 1))
+    kern = rng.uniform(-1.0, 1.0, size=(len(kps), U))
+    layer.interpolation_logits.assign(logits.astype('float32'))
+    layer.kernel.assign(kern.astype('float32'))
+    kin = layer.keypoints_inputs().numpy().astype('float64')
+    kout = layer.keypoints_outputs().numpy().astype('float64')
+    xs = np.concatenate([kin[:, 0], (kin[:-1, 0] + kin[1:, 0]) / 2, [kps[0] - 1.0, kps[-1] + 1.0]])
+    x = np.tile(xs[:, None], (1, spec['in_cols'])).astype('float32')
+    y = layer(tf.constant(x)).numpy()
+    for u in range(U):
+      want = np.interp(x[:, u if spec['in_cols'] > 1 else 0].astype('float64'), kin[:, u], kout[:, u])
+      err = float(np.max(np.abs(y[:, u] - want)))
+      scale = 1.0 + float(np.max(np.abs(kout[:, u])))
+      if err > 1e-3 * scale and (worst is None or err > worst['error']):
+        worst = {'error': err, 'unit': u, 'logits': logits.tolist(), 'kernel': kern.tolist(), 'inputs': xs.tolist(),
+                 'layer_output': y[:, u].tolist(), 'interp_through_reported_keypoints': want.tolist()}
+result = worst
+"""
+
+
 class LemmaCase(Case):
   contract_key = None
   xcheck = False
+
+  def replay_desc(self, cfg, model, g):
+    """Bounded native search for a concrete failing input of the learned-keypoint obligations (softmax is
+    uninterpreted in the contract library, so the solver model itself cannot be replayed)."""
+    if cfg.get('lemma') != 'learned-call':
+      return None
+    kps = [float(k) for k in KEYPOINTS[cfg['nk']][cfg.get('kpset', 0)]]
+    return {'kind': 'script', 'code': _LEARNED_CALL_SCRIPT, 'floatx': 'float32',
+            'args': [{'units': cfg['units'], 'in_cols': cfg.get('in_cols', cfg['units']), 'kps': kps}], 'kwargs': {}}
+
+  def replay_eval(self, cfg, model, g, desc, nat):
+    failing = []
+    if 'error' in nat:
+      failing.append('raised ' + nat['error'][:200])
+    elif nat.get('ok'):
+      failing.append('call() differs from interpolation through keypoints_inputs()/keypoints_outputs() by %g'
+                     % nat['ok']['error'])
+    return {'desc': {k: v for k, v in desc.items() if k != 'code'}, 'native': {k: v for k, v in nat.items() if k != 'trace'},
+            'failing': failing, 'note': 'bounded native search (random logits with spreads up to 25)'}
 
   def body(self, cfg, c):
     kind = cfg['lemma']
@@ -419,7 +469,58 @@ class LemmaCase(Case):
         cl.append(('last-keypoint-fixed[u%d]' % u, P.lift(kin.a[-1, u]).eq(Fr(kps[-1]))))
         for i in range(len(kps) - 1):
           cl.append(('strictly-ordered[%d,u%d]' % (i, u), P.lift(kin.a[i, u]) < P.lift(kin.a[i + 1, u])))
+    elif kind == 'learned-call':
+      # with learned interior keypoints, call() interpolates through exactly the points that
+      # keypoints_inputs() / keypoints_outputs() report (hat form over those points), for any logits
+      ly = load.mod('pwl_calibration_layer')
+      kps = KEYPOINTS[cfg['nk']][cfg.get('kpset', 0)]
+      U = cfg['units']
+      L = tfc.sym([U, len(kps) - 1], 'logit')
+      K = tfc.sym([len(kps), U], 'K')
+
+      def provider(layer, name, shape, dt, init, cons):
+        return K if 'kernel' in name else L
+      kerasc.WEIGHT_PROVIDER[0] = provider
+      try:
+        layer = ly.PWLCalibration(input_keypoints=list(kps), units=U, input_keypoints_type='learned_interior')
+        layer.build(tfc.TensorShape([None, cfg.get('in_cols', U)]))
+      finally:
+        kerasc.WEIGHT_PROVIDER[0] = None
+      x = tfc.sym([1, cfg.get('in_cols', U)], 'x')
+      y = layer.call(x)
+      kin, kout = layer.keypoints_inputs(), layer.keypoints_outputs()
+      cl.append(('shape', B.const(tuple(y.a.shape) == (1, U))))
+      for u in range(U):
+        xu = P.lift(x.a[0, u if cfg.get('in_cols', U) > 1 else 0])
+        want = hat_form([P.lift(kin.a[i, u]) for i in range(len(kps))], [P.lift(kout.a[i, u]) for i in range(len(kps))], xu)
+        got = P.lift(y.a[0, u])
+        cl.append(('call-interpolates-reported-keypoints[u%d]' % u, E.TRUE if got.same(want) else got.eq(want)))
+    elif kind == 'hat-form':
+      # for ANY strictly increasing keypoints the hat form is the linear interpolation on each
+      # segment and constant outside (keypoints are symbolic here)
+      n = cfg['nk']
+      ks = [P.var('k%d' % i) for i in range(n)]
+      ys = [P.var('y%d' % i) for i in range(n)]
+      x = P.var('x')
+      for i in range(n - 1):
+        c.assume(ks[i] < ks[i + 1], 'strictly increasing keypoints')
+      f = hat_form(ks, ys, x)
+      cl.append(('constant-below', (x <= ks[0]).implies(f.eq(ys[0]))))
+      cl.append(('constant-above', (x >= ks[-1]).implies(f.eq(ys[-1]))))
+      for i in range(n - 1):
+        lin = ys[i] + (x - ks[i]) * (ys[i + 1] - ys[i]) * E.inv(ks[i + 1] - ks[i])
+        cl.append(('linear-on-segment[%d]' % i, ((x >= ks[i]) & (x <= ks[i + 1])).implies(f.eq(lin))))
+        cl.append(('passes-through-keypoint[%d]' % i, x.eq(ks[i]).implies(f.eq(ys[i]))))
     return cl
+
+
+def hat_form(ks, ys, x):
+  """y0 + sum_i clip((x - k_i) / (k_{i+1} - k_i), 0, 1) * (y_{i+1} - y_i)."""
+  f = ys[0]
+  for i in range(len(ks) - 1):
+    w = E.pmin(E.pmax((x - ks[i]) * E.inv(ks[i + 1] - ks[i]), 0), 1)
+    f = f + w * (ys[i + 1] - ys[i])
+  return f
 
 
 CASES = {'piw': PiwCase(), 'pwl_call': PwlCallCase(), 'kpo': KpoCase(), 'kpi': KpiCase(),
@@ -454,6 +555,9 @@ def configs(tier, rng):
       if nk >= 3:
         for units in (1, 2):
           jobs.append(('lemma', dict(lemma='learned-keypoints', nk=nk, kpset=kpset, units=units)))
+          for in_cols in sorted({1, units}):
+            jobs.append(('lemma', dict(lemma='learned-call', nk=nk, kpset=kpset, units=units, in_cols=in_cols)))
+    jobs.append(('lemma', dict(lemma='hat-form', nk=nk)))
   for nb in ((2, 3) if tier == 'quick' else (2, 3, 5)):
     for units in (1, 2):
       for split in ((False, True) if units > 1 else (False,)):
